@@ -29,6 +29,8 @@ pub struct Assoc {
     _in_tx: tokio::sync::mpsc::UnboundedSender<Bytes>,
     alloc_fail: Option<String>,
     alloc_max_x100: u64,
+    pub last_sent: Vec<u64>,
+    seed_tsn: u32,
 }
 
 fn fold(b: &[u8]) -> u64 { b.iter().fold(7u64, |a, x| (a * 31 + *x as u64) % 4294967296) }
@@ -52,7 +54,7 @@ impl Assoc {
                 &rustrtc::RtcConfiguration::default());
             (sctp, dc_rx, out_rx, in_tx)
         });
-        let mut a = Assoc { rt, sctp, port, chan_rx, held: vec![], _out_rx: out_rx, _in_tx: in_tx, alloc_fail: None, alloc_max_x100: 0 };
+        let mut a = Assoc { rt, sctp, port, chan_rx, held: vec![], _out_rx: out_rx, _in_tx: in_tx, alloc_fail: None, alloc_max_x100: 0, last_sent: vec![], seed_tsn };
         if is_client { let s = a.sctp.clone(); let _ = a.rt.block_on(async move { s.verif_send_init().await }); let _ = hk::trace_take(port); a.drain_out(); }
         a
     }
@@ -61,6 +63,9 @@ impl Assoc {
 
     /// one packet; returns (digest text, cookies issued in INIT-ACK replies)
     pub fn feed(&mut self, pkt: &[u8]) -> (String, Vec<Vec<u8>>) {
+        // a seed is consumed by the first choice it replaces: re-arm it so that EVERY non-duplicate INIT of the history draws the seeded
+        // initial TSN / tag (what the model assumes) instead of a random one
+        hk::set_seeds(self.port, hk::Seeds { tag: Some(0x1122_3344), tsn: Some(self.seed_tsn) });
         let s = self.sctp.clone();
         let p = Bytes::copy_from_slice(pkt);
         let a0 = super::alloc_read();
@@ -73,7 +78,13 @@ impl Assoc {
         self.drain_out();
         let mut ev: Vec<String> = vec![];
         let mut cookies = vec![];
+        self.last_sent.clear();
         for e in hk::trace_take(self.port) {
+            // per `transmit()` call (only `handle_sack` makes one inside `handle_packet`): the number of new DATA chunks it sent — each takes a TSN
+            if let hk::Ev::Mark(name, v) = &e {
+                if *name == "tx_window" { self.last_sent.push(0); }
+                else if *name == "tx_new" { if let (Some(l), Some(n)) = (self.last_sent.last_mut(), v.get(1)) { *l = *n; } }
+            }
             if let hk::Ev::Tx(b) = e {
                 let mut off = 12;
                 while off + 4 <= b.len() {
@@ -108,6 +119,7 @@ impl Assoc {
             self.held.push(dc);
         }
         let snap = self.sctp.verif_snapshot();
+        if std::env::var_os("C07_SCTP_DEBUG").is_some() { eprintln!("dbg port={} pkt={} view={:?} next_tsn={} sent={:?}", self.port, &hex(pkt)[..hex(pkt).len().min(60)], self.sctp.verif_sack_view(), snap.next_tsn, self.last_sent); }
         let mut parts = ev;                                  // control replies and channel creations interleave in handler order:
         parts.extend(created);                               // the model emits them in one list; see `order_key` below
         if r.is_err() { parts.push("9999".into()); }
@@ -231,12 +243,14 @@ fn gen_packet(rng: &mut Rng, cum: u32, local_tsn: u32, cookies: &[Vec<u8>], req_
     p
 }
 
-pub struct Step { pub crc_ok: bool, pub bytes: Vec<u8>, pub issued: Vec<Vec<u8>> }
+pub struct Step { pub crc_ok: bool, pub bytes: Vec<u8>, pub issued: Vec<Vec<u8>>, pub sent: Vec<u64> }
 fn crc_ok(p: &[u8]) -> bool { p.len() >= 12 && { let mut q = p.to_vec(); let w = [q[8], q[9], q[10], q[11]]; q[8..12].copy_from_slice(&[0; 4]); crc32c::crc32c(&q).to_le_bytes() == w } }
 
 fn case_text(is_client: bool, seed_tsn: u32, steps: &[Step]) -> String {
-    format!("{} {} {}", is_client as u8, seed_tsn, steps.iter().map(|s| format!("{}:{}:{}", s.crc_ok as u8, hex(&s.bytes),
-        if s.issued.is_empty() { "-".to_string() } else { s.issued.iter().map(|c| hex(c)).collect::<Vec<_>>().join("+") })).collect::<Vec<_>>().join(" "))
+    format!("{} {} {}", is_client as u8, seed_tsn, steps.iter().map(|s| format!("{}:{}:{}{}", s.crc_ok as u8, hex(&s.bytes),
+        if s.issued.is_empty() { "-".to_string() } else { s.issued.iter().map(|c| hex(c)).collect::<Vec<_>>().join("+") },
+        // 4th field, only when a `transmit()` call sent something: DATA chunks sent per call (the model advances `next_tsn` by them)
+        if s.sent.iter().any(|n| *n > 0) { format!(":{}", s.sent.iter().map(|n| n.to_string()).collect::<Vec<_>>().join(",")) } else { String::new() })).collect::<Vec<_>>().join(" "))
 }
 
 /// run one generated session; `script`: None = generate with `rng`, Some = replay these packets
@@ -252,8 +266,8 @@ pub fn run_session(run: &mut Run, rng: &mut Rng, is_client: bool, replay: Option
             if panicked.is_some() { return vec![]; }
             let r = { let mut ar = std::panic::AssertUnwindSafe(&mut *a); let pr = p.clone(); super::catch_ack(move || ar.feed(&pr)) };
             match r {
-                Ok((d, issued)) => { steps.push(Step { crc_ok: crc_ok(&p), bytes: p, issued: issued.clone() }); outs.push(d); issued }
-                Err(msg) => { steps.push(Step { crc_ok: crc_ok(&p), bytes: p, issued: vec![] }); panicked = Some(msg); vec![] }
+                Ok((d, issued)) => { steps.push(Step { crc_ok: crc_ok(&p), bytes: p, issued: issued.clone(), sent: a.last_sent.clone() }); outs.push(d); issued }
+                Err(msg) => { steps.push(Step { crc_ok: crc_ok(&p), bytes: p, issued: vec![], sent: vec![] }); panicked = Some(msg); vec![] }
             }
         };
         if let Some((_, pk)) = replay { for p in pk { feed(&mut a, p, &mut steps, &mut outs); } }
